@@ -35,6 +35,10 @@ def prop_of(prov, item):
         return MERGED_ERR.get(item[1], "C05") if asp == "err" else MERGED.get(asp, "C05")
     if prov in ("merge", "merge-zero"):
         return "C05"
+    if prov == "dvwalk-built":
+        return "C03"
+    if prov == "dvwalk-merged":
+        return "C06"
     if prov == "buildfail":
         return "C10"
     if prov == "close":
@@ -59,12 +63,16 @@ def plan_for(pid, tier):
     P = {
         "C01": [("rich", 16 if q else 150, 5), ("mergey", 6 if q else 40, 4), ("lean", 2 if q else 8, 2)],
         "C02": [("stored", 16 if q else 150, 5), ("mergey", 6 if q else 40, 4), ("lean", 1 if q else 4, 2)],
+        "C03": [("rich", 20 if q else 200, 6), ("mergey", 10 if q else 100, 6), ("lean", 2 if q else 10, 3)],
         "C04": [("rich", 12 if q else 100, 6), ("stored", 6 if q else 50, 5), ("mergey", 8 if q else 50, 6), ("lean", 1 if q else 4, 3)],
         "C05": [("rich", 10 if q else 120, 9), ("stored", 6 if q else 50, 8), ("mergey", 20 if q else 200, 9), ("leanmerge", 1 if q else 5, 0)],
         "C06": [("rich", 10 if q else 120, 10), ("mergey", 30 if q else 300, 10), ("leanmerge", 1 if q else 8, 0)],
     }
     common["walks"] = 500 if q else 8000
     common["walk_bias"] = "merge" if pid in ("C05", "C06") else "build"
+    if pid == "C03":
+        import compcheck
+        common["pre"] = compcheck.dvvisit_stage
     common["profiles"] = P[pid]
     common["attr"] = {pid}
     return common
@@ -199,7 +207,7 @@ def trace_stats(trace):
     return st, samples
 
 
-def run_life_check(pid, tier, seed, replay=None):
+def run_life_check(pid, tier, seed, replay=None, pre=None):
     t0 = time.time()
     plan = plan_for(pid, tier)
     known = load_known()
@@ -208,6 +216,8 @@ def run_life_check(pid, tier, seed, replay=None):
         zx = build_harness(plan["tags"])
         if replay:
             return do_replay(pid, zx, sc, replay, known, plan)
+        if pre is None and plan.get("pre"):
+            pre = plan["pre"](zx, sc, tier, seed, known)
         # G
         outp, lst = tlc(sc, "Life", cfg=plan["life_cfg"], workers=8, timeout=plan["life_timeout"], outname="life.out")
         errs = tlc_errors(outp)
@@ -261,6 +271,14 @@ def run_life_check(pid, tier, seed, replay=None):
                "evaluations": tst["events"], "distinct_nontrivial": tst["distinct_inputs"],
                "rule": "events = public calls logged with complete observation; distinct = distinct (batch, mode) builds and (inputs, drops, mode) merges",
                "known_findings_seen": sorted(kf), "exhaustive": False}
+        if pre:
+            # results of a component stage run before the lifecycle stage (same property)
+            cov["states"] += pre["cov"].get("states", 0)
+            cov["transitions"] += pre["cov"].get("transitions", 0)
+            cov["traces_validated_against_impl"] += pre["cov"].get("traces_validated_against_impl", 0)
+            cov["samples"] = pre["cov"].get("samples", []) + cov["samples"]
+            cov["component"] = pre["cov"]
+            confirmed = pre["paths"] + confirmed
         write_evidence(pid, tier, seed, cov, ASSUMPTIONS, time.time() - t0, len(confirmed))
         if confirmed:
             for path in confirmed:
